@@ -134,11 +134,23 @@ func (s *CertPool) findVerifiedParents(cert *Certificate) (parents []int, errCer
 	}
 	var candidates []int
 
+	// The authority key identifier is only a hint: certificates that match it come
+	// first, but every certificate with the issuer's name stays a candidate (a CA
+	// re-issued without, or with another, subject key identifier is still the issuer).
 	if len(cert.AuthorityKeyId) > 0 {
-		candidates = s.bySubjectKeyId[string(cert.AuthorityKeyId)]
+		candidates = append(candidates, s.bySubjectKeyId[string(cert.AuthorityKeyId)]...)
 	}
-	if len(candidates) == 0 {
-		candidates = s.byName[string(cert.RawIssuer)]
+	for _, c := range s.byName[string(cert.RawIssuer)] {
+		dup := false
+		for _, d := range candidates {
+			if d == c {
+				dup = true
+				break
+			}
+		}
+		if !dup {
+			candidates = append(candidates, c)
+		}
 	}
 
 	for _, c := range candidates {
